@@ -39,6 +39,16 @@ structure WF (ls : List Lock) : Prop where
   cross : ls.Pairwise (fun a b => a.owner ≠ b.owner →
           a.start < b.stop → b.start < a.stop → a.ty = .shared ∧ b.ty = .shared)
 
+instance (ls : List Lock) : Decidable (WF ls) :=
+  decidable_of_iff
+    (ls.Pairwise (fun a b => a.start ≤ b.start) ∧ (∀ e ∈ ls, e.start < e.stop) ∧
+      (∀ e ∈ ls, e.ty ≠ .unlocked) ∧
+      ls.Pairwise (fun a b => a.owner = b.owner →
+          a.stop ≤ b.start ∧ (a.ty = b.ty → a.stop < b.start)) ∧
+      ls.Pairwise (fun a b => a.owner ≠ b.owner →
+          a.start < b.stop → b.start < a.stop → a.ty = .shared ∧ b.ty = .shared))
+    ⟨fun ⟨a, b, c, d, e⟩ => ⟨a, b, c, d, e⟩, fun h => ⟨h.sorted, h.nonempty, h.locked, h.own, h.cross⟩⟩
+
 /-- A request to the table: the `Lock` value handed to `Set`.  `ty = unlocked`
 is an unlock request. -/
 abbrev Req := Lock
@@ -61,5 +71,16 @@ def applyReq (ls : List Lock) (r : Req) : List Lock :=
 def run (ls : List Lock) : List Req → List Lock
   | [] => ls
   | r :: rs => run (applyReq ls r) rs
+
+/-- The change in the number of entries reported to the caller by one step
+(`Set`'s return value if the request was applied, 0 if it was denied). -/
+def stepDelta (ls : List Lock) (r : Req) : Int :=
+  if r.ty = .unlocked ∨ test ls r = none then (set ls r).2 else 0
+
+/-- What the NFS layer accumulates in a lock-owner's `lockCount` over a history:
+the sum of the reported deltas of that owner's requests. -/
+def deltaSum (o : Nat) (ls : List Lock) : List Req → Int
+  | [] => 0
+  | r :: rs => (if r.owner = o then stepDelta ls r else 0) + deltaSum o (applyReq ls r) rs
 
 end BbRe.Spec.ByteLocks
